@@ -65,7 +65,7 @@ Proof. intros. cbn [pbind op res]. split; assumption. Qed.
 
 (* requests that neither create, publish nor give up a fresh table *)
 Definition calm (q : req) : bool :=
-  match q with QRenameTmp _ _ _ _ | QCommitList _ | QRemove PLL => false | _ => true end.
+  match q with QRenameTmp _ _ _ _ _ | QCommitList _ | QRemove PLL => false | _ => true end.
 
 Fixpoint calmp {A} (p : prog A) : Prop :=
   match p with Ret _ => True | Op q k => calm q = true /\ forall rs, calmp (k rs) end.
@@ -140,20 +140,21 @@ Proof.
     apply calmp_op; [reflexivity|]. intro r. destruct r; try exact I. apply IH.
 Qed.
 
-Lemma calmp_reload : forall attempts reuse old, calmp (reload attempts reuse old).
+Lemma calmp_reload : forall attempts hh reuse old, calmp (reload attempts hh reuse old).
 Proof.
-  induction attempts as [|a IH]; intros reuse old; cbn [reload]; [exact I|].
+  induction attempts as [|a IH]; intros hh reuse old; cbn [reload]; [exact I|].
   apply calmp_op; [reflexivity|]. intro r.
   apply calmp_bind; [apply calmp_open_all|]. intros [m|].
-  - apply calmp_bind; [apply calmp_remove_any|]. intros _. exact I.
+  - destruct (same_hash hh m); [|exact I].
+    apply calmp_bind; [apply calmp_remove_any|]. intros _. exact I.
   - apply calmp_op; [reflexivity|]. intro r2. destruct (names_eqb _ _); [exact I|apply IH].
 Qed.
 
-Lemma calmp_open_reload : forall attempts, calmp (open_reload attempts).
+Lemma calmp_open_reload : forall attempts hh, calmp (open_reload attempts hh).
 Proof.
-  induction attempts as [|a IH]; cbn [open_reload]; [exact I|].
+  induction attempts as [|a IH]; intro hh; cbn [open_reload]; [exact I|].
   apply calmp_op; [reflexivity|]. intro r.
-  apply calmp_bind; [apply calmp_open_all|]. intros [m|]; [exact I|].
+  apply calmp_bind; [apply calmp_open_all|]. intros [m|]; [destruct (same_hash hh m); exact I|].
   apply calmp_op; [reflexivity|]. intro r2. destruct (names_eqb _ _); [exact I|apply IH].
 Qed.
 
@@ -208,10 +209,10 @@ Proof.
     exfalso. apply Hx2. apply in_or_app. right. apply in_or_app. right. exact H.
 Qed.
 
-Lemma res_compact_range : forall attempts first last expiry m lg,
-  fr lg = [] -> res lg [] (compact_range attempts first last expiry m) owes_nothing.
+Lemma res_compact_range : forall attempts hh first last expiry m lg,
+  fr lg = [] -> res lg [] (compact_range attempts hh first last expiry m) owes_nothing.
 Proof.
-  intros attempts first last expiry m lg Hfr. unfold compact_range.
+  intros attempts hh first last expiry m lg Hfr. unfold compact_range.
   assert (Hdone : forall (lgx : lgh) (b : bool), fr lgx = [] -> @owes_nothing (mem * bool) lgx [] (m, b))
     by (intros; split; [assumption|reflexivity]).
   destruct (Nat.leb last first && negb expiry); [cbn [res]; apply Hdone; exact Hfr|].
@@ -254,21 +255,21 @@ Proof.
     apply Hrel. apply incl_nil_eq. exact F8.
 Qed.
 
-Lemma res_auto_compact : forall attempts m lg,
-  fr lg = [] -> res lg [] (auto_compact attempts m) owes_nothing.
+Lemma res_auto_compact : forall attempts hh m lg,
+  fr lg = [] -> res lg [] (auto_compact attempts hh m) owes_nothing.
 Proof.
-  intros attempts m lg Hfr. unfold auto_compact.
+  intros attempts hh m lg Hfr. unfold auto_compact.
   destruct (suggest _) as [[s e]|]; [|cbn [res]; split; [exact Hfr|reflexivity]].
   eapply res_bind; [apply res_compact_range; exact Hfr|].
   cbn beta. intros lg' d' a H. cbn [res]. exact H.
 Qed.
 
-Lemma res_add : forall attempts kind auto m lg,
-  fr lg = [] -> res lg [] (add attempts kind auto m) owes_nothing.
+Lemma res_add : forall attempts hh kind auto m lg,
+  fr lg = [] -> res lg [] (add attempts hh kind auto m) owes_nothing.
 Proof.
-  intros attempts kind auto m lg Hfr. unfold add.
+  intros attempts hh kind auto m lg Hfr. unfold add.
   assert (Hfail : forall lgx, fr lgx = [] ->
-            res lgx [] (do! rl := reload attempts true m in Ret (fst rl, RLockFailure)) owes_nothing).
+            res lgx [] (do! rl := reload attempts hh true m in Ret (fst rl, RLockFailure)) owes_nothing).
   { intros lgx A. apply res_calm_nothing; [|exact A]. apply calmp_bind; [apply calmp_reload|]. intros; exact I. }
   apply res_op; [discriminate|]. intros r _. cbn [dead_upd].
   destruct r; try (cbn [nxt]; apply Hfail; exact Hfr).
@@ -309,10 +310,10 @@ Lemma nxt_opentab_same : forall lg n r,
   lk (nxt lg (QOpenTab n) r) = lk lg /\ vw (nxt lg (QOpenTab n) r) = vw lg /\ fr (nxt lg (QOpenTab n) r) = fr lg.
 Proof. intros lg n r. destruct r; repeat split. Qed.
 
-Lemma res_add_multi : forall attempts tx same m lg,
-  fr lg = [] -> res lg [] (add_multi attempts tx same m) owes_nothing.
+Lemma res_add_multi : forall attempts hh tx same m lg,
+  fr lg = [] -> res lg [] (add_multi attempts hh tx same m) owes_nothing.
 Proof.
-  intros attempts tx same m lg Hfr. unfold add_multi.
+  intros attempts hh tx same m lg Hfr. unfold add_multi.
   apply res_op; [discriminate|]. intros r _. cbn [dead_upd].
   destruct r; try (cbn [nxt res]; split; [exact Hfr|reflexivity]).
   apply res_op; [discriminate|]. intros c _. cbn [dead_upd].
@@ -326,7 +327,7 @@ Proof.
   apply res_op; [discriminate|]. intros r7 _. cbn [dead_upd].
   apply res_op; [discriminate|]. intros t2 [tmp2 ->]. cbn [dead_upd].
   set (lg8 := nxt (nxt (nxt (nxt (nxt (nxt (nxt lg (QCreateExcl PLL) SOk) QReadList c) QCreateTemp (STmp tmp))
-                (QOpenTmp tmp) r5) (QRenameTmp tmp (next_index m) (next_index m) [tx]) (SNew n1 f1))
+                (QOpenTmp tmp) r5) (QRenameTmp tmp (next_index m) (next_index m) [tx] hh) (SNew n1 f1))
                 (QRemove (PTmp tmp)) r7) QCreateTemp (STmp tmp2)).
   assert (F8 : fr lg8 = [n1]) by (cbn [lg8 nxt fr]; rewrite Hfr; reflexivity).
   assert (V8 : vw lg8 = Some (lnames c)) by reflexivity.
@@ -366,10 +367,10 @@ Proof.
     apply calmp_op; [reflexivity|]. intros _. apply IH.
 Qed.
 
-Lemma res_clean : forall attempts m lg,
-  fr lg = [] -> res lg [] (clean attempts m) owes_nothing.
+Lemma res_clean : forall attempts hh m lg,
+  fr lg = [] -> res lg [] (clean attempts hh m) owes_nothing.
 Proof.
-  intros attempts m lg Hfr. unfold clean.
+  intros attempts hh m lg Hfr. unfold clean.
   assert (Hrel : forall lgx (x : mem * apires), fr lgx = [] ->
             res lgx [] (do! _ := op (QRemove PLL) in Ret x) owes_nothing).
   { intros lgx x A. apply res_op; [intros _; exact A|]. intros rs _. cbn [nxt res dead_upd]. split; reflexivity. }
@@ -381,7 +382,7 @@ Proof.
   destruct (negb (names_eqb _ (mnames m))); [apply Hrel; exact F2|].
   eapply res_bind; [apply res_calm; apply calmp_reload|].
   cbn beta. intros lg3 d3 rl [F3 I3]. apply incl_nil_eq in I3. subst d3. rewrite F2 in F3. apply incl_nil_eq in F3.
-  destruct (snd rl); [|apply Hrel; exact F3].
+  destruct (snd rl); [|apply Hrel; exact F3|apply Hrel; exact F3].
   apply res_op; [discriminate|]. intros dres _. cbn [dead_upd nxt].
   destruct (fst rl) as [|x m']; [apply Hrel; exact F3|].
   eapply res_bind; [apply res_calm; apply calmp_clean_loop|].
@@ -395,10 +396,10 @@ Proof.
   intros A p f lg H. unfold wrap. eapply res_bind; [exact H|]. cbn beta. intros lg' d' a X. cbn [res]. exact X.
 Qed.
 
-Theorem res_call_prog : forall attempts o m lg,
-  fr lg = [] -> res lg [] (call_prog attempts o m) owes_nothing.
+Theorem res_call_prog : forall attempts hh o m lg,
+  fr lg = [] -> res lg [] (call_prog attempts hh o m) owes_nothing.
 Proof.
-  intros attempts o m lg Hfr.
+  intros attempts hh o m lg Hfr.
   assert (Hret : forall x : option mem * apires, res lg [] (Ret x) owes_nothing)
     by (intro x; cbn [res]; split; [exact Hfr|reflexivity]).
   destruct o; destruct m as [mm|]; cbn [call_prog]; try apply Hret;
@@ -471,7 +472,7 @@ Lemma cover_step : forall so c h q s lg d s' rs fe (R : nat -> Prop),
 Proof.
   intros so c h q s lg d s' rs fe R Hap Hside Hcov.
   assert (Hid : forall n, In n (fr lg) \/ In n d \/ R n -> In n (fr lg) \/ In n d \/ R n) by auto.
-  destruct q as [p| |n|t| |t mn mx txs|names|p|cands|cands| ]; cbn [apply_req] in Hap.
+  destruct q as [p| |n|t| |t mn mx txs hsh|names|p|cands|cands| ]; cbn [apply_req] in Hap.
   - (* QCreateExcl *)
     destruct p; try (inversion Hap; subst; exact Hcov).
     + destruct (f_lock s); inversion Hap; subst; [exact Hcov|].
@@ -543,7 +544,7 @@ Lemma valid_apply : forall so ch h q s s' rs fe N,
 Proof.
   intros so ch h q s s' rs fe N Hh Hap (V1 & V2 & V3).
   assert (Hs : valid_owners s N) by (repeat split; assumption).
-  destruct q as [p| |n|t| |t mn mx txs|names|p|cands|cands| ]; cbn [apply_req] in Hap.
+  destruct q as [p| |n|t| |t mn mx txs hsh|names|p|cands|cands| ]; cbn [apply_req] in Hap.
   - destruct p; try (inversion Hap; subst; exact Hs).
     + destruct (f_lock s); inversion Hap; subst; [exact Hs|].
       repeat split; cbn [f_lock f_tlocks f_tmps]; auto. intros c E. inversion E; subst. exact Hh.
@@ -593,7 +594,7 @@ Proof.
   assert (Hh : h < length (w_handles w)) by (apply nth_error_Some; congruence).
   destruct (h_pc hd) as [|o p|].
   - destruct (h_script hd) as [|o rest]; [inversion H; subst; exact V|].
-    destruct (call_prog att o (h_mem hd)) as [[m r]|q k]; inversion H; subst;
+    destruct (call_prog att (h_hash hd) o (h_mem hd)) as [[m r]|q k]; inversion H; subst;
       cbn [w_fs w_handles]; rewrite length_set_handle; exact V.
   - destruct p as [[m r]|q k].
     + inversion H; subst. cbn [w_fs w_handles]. rewrite length_set_handle. exact V.
@@ -617,10 +618,11 @@ Proof. intros. unfold gupd. destruct (Nat.eqb_spec i h); [contradiction|reflexiv
 
 Definition hinvR (γ : ghost) (s : fs) (gh : ghosts) (i : nat) (hd : handle) : Prop :=
   (forall m, h_mem hd = Some m -> memok γ m) /\
+  omh (h_hash hd) (h_mem hd) /\
   match h_pc hd with
   | HDead => False
   | HIdle => True
-  | HRun o p => interp γ s i (fst (gh i)) /\ ok (fst (gh i)) p (Qcall o) /\
+  | HRun o p => interp γ s i (fst (gh i)) /\ ok (fst (gh i)) p (Qcall (h_hash hd) o) /\
                 res (fst (gh i)) (snd (gh i)) p owes_nothing
   end.
 
@@ -640,7 +642,7 @@ Lemma hinvR_other : forall γ s γ' s' gh gh' i hd,
   GI γ s -> frame γ s γ' s' -> keepsL i γ s γ' s' -> keepsT i s s' -> gh' i = gh i ->
   hinvR γ s gh i hd -> hinvR γ' s' gh' i hd.
 Proof.
-  intros γ s γ' s' gh gh' i hd HG HF KL KT Eg (B & C). split.
+  intros γ s γ' s' gh gh' i hd HG HF KL KT Eg (B & Bh & C). split; [|split; [exact Bh|]].
   - intros m E. eapply memok_stable; eauto.
   - destruct (h_pc hd); auto. rewrite Eg. destruct C as (C1 & C2 & C3). split; [|split; assumption].
     apply interp_stable with (γ := γ) (s := s); auto.
@@ -751,16 +753,16 @@ Proof.
   { destruct (drop h busy) as [|x l] eqn:Ed; [|reflexivity]. cbn [negb].
     apply quiescent_clean with (γ := γ) (gh := gh); [exact HR|].
     intros i hd En. destruct (Nat.eq_dec i h) as [->|Hne]; [apply Hh; exact En|].
-    pose proof (r_h _ _ _ HR i hd En) as (_ & X).
+    pose proof (r_h _ _ _ HR i hd En) as (_ & _ & X).
     destruct (h_pc hd) as [|o0 p0|] eqn:Epc; [reflexivity| |destruct X].
     exfalso. pose proof (in_drop i h busy Hne (Hb i hd o0 p0 Hne En Epc)) as Y. rewrite Ed in Y. destruct Y. }
   rewrite E. cbn [andb]. destruct m; reflexivity.
 Qed.
 
-Lemma memok_of_Qcall : forall γ s h lg o m r,
-  interp γ s h lg -> Qcall o lg (m, r) -> forall mm, m = Some mm -> memok γ mm.
+Lemma memok_of_Qcall : forall γ s h lg hh o m r,
+  interp γ s h lg -> Qcall hh o lg (m, r) -> forall mm, m = Some mm -> memok γ mm.
 Proof.
-  intros γ s h lg o m r HI (Q1 & _) mm E. cbn [fst] in Q1. destruct (Q1 mm E) as [A B].
+  intros γ s h lg hh o m r HI (Q1 & _) mm E. cbn [fst] in Q1. destruct (Q1 mm E) as [A B].
   intros n f Hin. split.
   - apply (i_kn HI). apply A. exact Hin.
   - apply (i_sn HI). apply B. unfold mnames. apply in_map_iff. exists (n, f). split; [reflexivity|exact Hin].
@@ -791,23 +793,23 @@ Proof.
   match goal with |- ?G => assert (Hnop : (w', evs) = (w, []) -> G) end.
   { intro E. inversion E; subst. exists γ, gh, busy. split; [exact HR0|]. split; [exact HB|reflexivity]. }
   destruct (nth_error (w_handles w) h) as [hd|] eqn:En; [|apply Hnop; congruence].
-  destruct (Hh h hd En) as (Hmem & Hpc).
+  destruct (Hh h hd En) as (Hmem & Hmh & Hpc).
   destruct (h_pc hd) as [|o p|] eqn:Epc; [| |apply Hnop; congruence].
   - (* a call starts *)
     destruct (h_script hd) as [|o rest] eqn:Es; [apply Hnop; congruence|].
-    pose proof (@call_prog_ok att o (h_mem hd)) as Hok.
+    pose proof (@call_prog_ok att (h_hash hd) o (h_mem hd) Hmh) as Hok.
     pose proof (@interp_init γ (w_fs w) h o (h_mem hd) HG Hmem) as HI.
-    pose proof (res_call_prog att o (h_mem hd) (lg_init o (h_mem hd)) eq_refl) as Hres.
+    pose proof (res_call_prog att (h_hash hd) o (h_mem hd) (lg_init o (h_mem hd)) eq_refl) as Hres.
     assert (Hnoth : forall i hd0 o0 p0, nth_error (w_handles w) i = Some hd0 -> h_pc hd0 = HRun o0 p0 -> i <> h).
     { intros i hd0 o0 p0 E1 E2 ->. rewrite En in E1. inversion E1; subst. congruence. }
-    destruct (call_prog att o (h_mem hd)) as [[m r]|q k] eqn:Ecp.
+    destruct (call_prog att (h_hash hd) o (h_mem hd)) as [[m r]|q k] eqn:Ecp.
     + inversion H; subst w' evs. clear H.
-      set (x := {| h_mem := m; h_pc := HIdle; h_script := rest |}) in *.
+      set (x := {| h_mem := m; h_pc := HIdle; h_script := rest; h_hash := h_hash hd |}) in *.
       assert (HR' : RInv γ gh {| w_fs := w_fs w; w_handles := set_handle h x (w_handles w) |}).
       { constructor; cbn [w_fs w_handles]; auto.
         - exists ow'. exact How'.
         - intros i hd' E. destruct (Nat.eq_dec i h) as [->|Hne].
-          + apply nth_set_eq in E. subst hd'. split; [|exact I].
+          + apply nth_set_eq in E. subst hd'. split; [|split; [exact (proj2 (proj2 (proj2 Hok)))|exact I]].
             cbn [h_mem x]. eapply memok_of_Qcall; [exact HI|exact Hok].
           + rewrite nth_set_neq in E by exact Hne. apply Hh. exact E.
         - eapply cover_mono; [|exact Hcov]. intros n (i & hd0 & o0 & p0 & E1 & E2 & E3).
@@ -823,14 +825,14 @@ Proof.
            right. eapply HB; eauto.
         -- apply Hok.
     + inversion H; subst w' evs. clear H.
-      set (x := {| h_mem := h_mem hd; h_pc := HRun o (Op q k); h_script := rest |}) in *.
+      set (x := {| h_mem := h_mem hd; h_pc := HRun o (Op q k); h_script := rest; h_hash := h_hash hd |}) in *.
       set (gh' := gupd gh h (lg_init o (h_mem hd), [])).
       exists γ, gh', (h :: busy). split; [|split].
       * constructor; cbn [w_fs w_handles]; auto.
         -- exists ow'. exact How'.
         -- intros i hd' E. destruct (Nat.eq_dec i h) as [->|Hne].
-           ++ apply nth_set_eq in E. subst hd'. split; [exact Hmem|].
-              cbn [h_pc x]. unfold gh'. rewrite gupd_same. cbn [fst snd]. auto.
+           ++ apply nth_set_eq in E. subst hd'. split; [exact Hmem|]. split; [exact Hmh|].
+              cbn [h_pc h_hash x]. unfold gh'. rewrite gupd_same. cbn [fst snd]. auto.
            ++ rewrite nth_set_neq in E by exact Hne. apply hinvR_same with (gh := gh); [exact HG| |apply Hh; exact E].
               apply gupd_other. exact Hne.
         -- eapply cover_mono; [|exact Hcov]. intros n (i & hd0 & o0 & p0 & E1 & E2 & E3).
@@ -847,12 +849,12 @@ Proof.
     + (* the call returns *)
       inversion H; subst w' evs. clear H.
       cbn [ok] in Hok. cbn [res] in Hres. destruct Hres as [Hfr0 Hd0].
-      set (x := {| h_mem := m; h_pc := HIdle; h_script := h_script hd |}) in *.
+      set (x := {| h_mem := m; h_pc := HIdle; h_script := h_script hd; h_hash := h_hash hd |}) in *.
       assert (HR' : RInv γ gh {| w_fs := w_fs w; w_handles := set_handle h x (w_handles w) |}).
       { constructor; cbn [w_fs w_handles]; auto.
         - exists ow'. exact How'.
         - intros i hd' E. destruct (Nat.eq_dec i h) as [->|Hne].
-          + apply nth_set_eq in E. subst hd'. split; [|exact I].
+          + apply nth_set_eq in E. subst hd'. split; [|split; [exact (proj2 (proj2 (proj2 Hok)))|exact I]].
             cbn [h_mem x]. eapply memok_of_Qcall; [exact HI|exact Hok].
           + rewrite nth_set_neq in E by exact Hne. apply Hh. exact E.
         - eapply cover_mono; [|exact Hcov]. intros n (i & hd0 & o0 & p0 & E1 & E2 & E3).
@@ -899,13 +901,13 @@ Proof.
         unfold gh'. rewrite gupd_other by exact Hne. exact E3. }
       destruct (k rs) as [[m r]|q' k'] eqn:Ek.
       * inversion H; subst w' evs. clear H. cbn [ok] in Hk. cbn [res] in Hr. destruct Hr as [Hfr0 Hd0].
-        set (x := {| h_mem := m; h_pc := HIdle; h_script := h_script hd |}) in *.
+        set (x := {| h_mem := m; h_pc := HIdle; h_script := h_script hd; h_hash := h_hash hd |}) in *.
         assert (HR' : RInv γ' gh' {| w_fs := s'; w_handles := set_handle h x (w_handles w) |}).
         { constructor; cbn [w_fs w_handles]; auto.
           - apply (sp_GI SP).
           - exists ow'. exact How'.
           - intros i hd' E. destruct (Nat.eq_dec i h) as [->|Hne].
-            + apply nth_set_eq in E. subst hd'. split; [|exact I].
+            + apply nth_set_eq in E. subst hd'. split; [|split; [exact (proj2 (proj2 (proj2 Hk)))|exact I]].
               cbn [h_mem x]. eapply memok_of_Qcall; [apply (sp_interp SP)|exact Hk].
             + rewrite nth_set_neq in E by exact Hne. apply Hothers; assumption.
           - eapply cover_mono; [|exact Hcov']. intros n [A|[A|A]].
@@ -923,7 +925,7 @@ Proof.
               eapply HB; eauto.
            ++ apply Hk.
       * inversion H; subst w' evs. clear H.
-        set (x := {| h_mem := h_mem hd; h_pc := HRun o (Op q' k'); h_script := h_script hd |}) in *.
+        set (x := {| h_mem := h_mem hd; h_pc := HRun o (Op q' k'); h_script := h_script hd; h_hash := h_hash hd |}) in *.
         exists γ', gh', busy. split; [|split].
         -- constructor; cbn [w_fs w_handles]; auto.
            ++ apply (sp_GI SP).
@@ -931,7 +933,8 @@ Proof.
            ++ intros i hd' E. destruct (Nat.eq_dec i h) as [->|Hne].
               ** apply nth_set_eq in E. subst hd'. split.
                  { cbn [h_mem x]. intros mm E. eapply memok_stable; [exact HG|apply (sp_frame SP)|]. apply Hmem. exact E. }
-                 cbn [h_pc x]. unfold gh'. rewrite gupd_same. cbn [fst snd].
+                 split; [exact Hmh|].
+                 cbn [h_pc h_hash x]. unfold gh'. rewrite gupd_same. cbn [fst snd].
                  split; [apply (sp_interp SP)|]. split; assumption.
               ** rewrite nth_set_neq in E by exact Hne. apply Hothers; assumption.
            ++ eapply cover_mono; [|exact Hcov']. intros n [A|[A|A]]; [| |apply HRo; exact A].
@@ -1013,7 +1016,7 @@ Proof.
   - cbn [init_world w_fs w_handles init_fs]. repeat split; cbn [f_lock f_tlocks f_tmps lookup]; intros; discriminate.
   - cbn [init_world w_handles w_fs]. intros i hd E. apply nth_error_In in E.
     apply in_map_iff in E as [s [<- Hin]].
-    split; [cbn; intros; discriminate|]. cbn. exact I.
+    split; [cbn; intros; discriminate|]. split; [intros mm E; discriminate E|]. cbn. exact I.
   - intros n Hn. left. cbn [init_world w_fs] in *. rewrite listed_init.
     cbn [init_fs f_tabs] in Hn. destruct (lookup n tabs) as [f|] eqn:E; [|congruence].
     apply lookup_In in E. apply in_map_iff. exists (n, f). split; [reflexivity|exact E].
